@@ -1,6 +1,7 @@
 import OpusProofs.EncSkelToc
 import OpusProofs.EncSkelParse
 import OpusProofs.EncSkelWf
+import OpusProofs.EncSkelRed
 /-
   Property C02 — "Every encoded packet is valid and decodes in lock-step with the encoder".
 
@@ -128,5 +129,38 @@ example : (encodeNative OpusProps.C02.exSt false 2880 4000 (OpusProps.C02.exOr 1
     (encodeNative OpusProps.C02.exSt false 2880 4000 (OpusProps.C02.exOr 158)).pkt.lens = [158, 158, 158] ∧
     (encodeNative OpusProps.C02.exSt false 2880 4000 (OpusProps.C02.exOr 158)).pkt.hdr = [255, 67, 3] := by
   decide +kernel
+
+/- FULL STATEMENT (design §7.C02 `redundancy_mirror`, P1): the decoder skeleton reading the encoder
+   skeleton's signalling recovers (redundancy, celt_to_silk, redundancy_bytes), under C08's lock-step
+   of symbols and `ec_tell` only.
+   Proved below with two kinds of extra hypotheses, which is what is missing for the full statement:
+   (a) the decoder's own gate `ec_tell + 17 (+20) ≤ 8·len` on the actual frame length — in hybrid mode this
+       is CELT's `min_allowed` contract (celt_encoder.c:2309-2314), not a fact of the skeleton; in SILK-only
+       mode it follows from `len = ⌈tell/8⌉ + rb` when `rb ≥ 3` or the flag bit cost a full bit, and is NOT
+       implied for `rb = 2` with a 0-bit flag and `tell ≡ 0 (mod 8)` (a corner the skeleton cannot exclude);
+   (b) hybrid: the sanity check `ec_tell ≤ 8·(len − rb)` of opus_decoder.c:492 (again CELT's contract). -/
+theorem redundancy_mirror_partial :
+    (∀ (o : DecSkel.Oracle) (r : DecSkel.Run) (len tellA tell1 tellB tellU rb : Int) (red c2s : Bool),
+      tellA + 17 + 20 ≤ 8 * len → o.bit r.k 12 tellA = (b2i red, tell1) →
+      (red = true → o.bit r.tick.k 1 tell1 = (b2i c2s, tellB)) →
+      (red = true → o.uint r.tick.tick.k 256 tellB = (rb - 2, tellU)) →
+      (red = true → tellU ≤ (len - rb) * 8) →
+      (DecSkel.parseRedundancy o DecSkel.MODE_HYBRID len tellA r).1 =
+        { redundancy := b2i red, celt_to_silk := if red then b2i c2s else 0, bytes := if red then rb else 0,
+          len := if red then len - rb else len, tell := if red then tellU else tell1 }) ∧
+    (∀ (o : DecSkel.Oracle) (r : DecSkel.Run) (tellA tellB rb : Int) (c2s : Bool),
+      2 ≤ rb → tellA + 17 ≤ 8 * ((tellB + 7) / 8 + rb) → o.bit r.k 1 tellA = (b2i c2s, tellB) →
+      (DecSkel.parseRedundancy o DecSkel.MODE_SILK ((tellB + 7) / 8 + rb) tellA r).1 =
+        { redundancy := 1, celt_to_silk := b2i c2s, bytes := rb, len := (tellB + 7) / 8, tell := tellB }) ∧
+    (∀ (o : DecSkel.Oracle) (r : DecSkel.Run) (len tellA : Int), len ≤ (tellA + 7) / 8 →
+      (DecSkel.parseRedundancy o DecSkel.MODE_SILK len tellA r).1 =
+        { redundancy := 0, celt_to_silk := 0, bytes := 0, len := len, tell := tellA }) :=
+  ⟨fun o r len tellA tell1 tellB tellU rb red c2s h1 h2 h3 h4 h5 =>
+      redundancy_mirror_hybrid o r len tellA tell1 tellB tellU rb red c2s h1 h2 h3 h4 h5,
+   fun o r tellA tellB rb c2s h1 h2 h3 => redundancy_mirror_silk o r tellA tellB rb c2s h1 h2 h3,
+   fun o r len tellA h => redundancy_mirror_silk_none o r len tellA h⟩
+
+/-- hybrid, 100-byte frame, SILK part ends at bit 200: flag, direction and byte count are read back. -/
+example : (200 : Int) + 17 + 20 ≤ 8 * 100 ∧ (213 + 8 : Int) ≤ (100 - 30) * 8 := by decide
 
 end OpusProps.C02
